@@ -37,6 +37,9 @@ def run(R):
                               "list of sizes on one MTU with a pattern payload; non-trivial = at least 3 operations and a delivery or two operation kinds; "
                               "distinct by MD5 of the canonical case")
         R.add_cases(res["cases"], len(res["nontrivial"]), res["samples"])
+    F.concurrent_send(R, test_exe, 6 if R.quick else 60)
+    if not R.quick:
+        F.concurrent_send(R, test_exe, 30, race=True)
     return R.finish()
 
 
